@@ -206,7 +206,7 @@ func judge(class string, key []byte, o *fw.Obs) {
 		var nonce uint64
 		var err error
 		var sp fw.SpareSet
-		dataIn := sp.Of("data", data, 64) // a window into a larger buffer: a nonce appended to it would write into the caller's memory
+		dataIn := fw.NilIfEmpty(sp.Of("data", data, 64), byte(workers)) // a window into a larger buffer: a nonce appended to it would write into the caller's memory
 		if !o.Try("Mine", func() { nonce, err = pow.New(workers).Mine(ctx, dataIn, target) }) {
 			return
 		}
